@@ -428,6 +428,17 @@ func (t *tOps) open(f *tFile) (ch *cache.Handle, err error) {
 	return
 }
 
+// Returns the table reader held by the given cache handle. The value is gone
+// if the file cache was closed (forcefully) after the handle was obtained, i.e.
+// the DB is being closed: the handle is released and ErrClosed returned.
+func (t *tOps) reader(ch *cache.Handle) (*table.Reader, error) {
+	if tr, ok := ch.Value().(*table.Reader); ok {
+		return tr, nil
+	}
+	ch.Release()
+	return nil, ErrClosed
+}
+
 // Finds key/value pair whose key is greater than or equal to the
 // given key.
 func (t *tOps) find(f *tFile, key []byte, ro *opt.ReadOptions) (rkey, rvalue []byte, err error) {
@@ -435,8 +446,12 @@ func (t *tOps) find(f *tFile, key []byte, ro *opt.ReadOptions) (rkey, rvalue []b
 	if err != nil {
 		return nil, nil, err
 	}
+	tr, err := t.reader(ch)
+	if err != nil {
+		return nil, nil, err
+	}
 	defer ch.Release()
-	return ch.Value().(*table.Reader).Find(key, true, ro)
+	return tr.Find(key, true, ro)
 }
 
 // Finds key that is greater than or equal to the given key.
@@ -445,8 +460,12 @@ func (t *tOps) findKey(f *tFile, key []byte, ro *opt.ReadOptions) (rkey []byte, 
 	if err != nil {
 		return nil, err
 	}
+	tr, err := t.reader(ch)
+	if err != nil {
+		return nil, err
+	}
 	defer ch.Release()
-	return ch.Value().(*table.Reader).FindKey(key, true, ro)
+	return tr.FindKey(key, true, ro)
 }
 
 // Returns approximate offset of the given key.
@@ -455,8 +474,12 @@ func (t *tOps) offsetOf(f *tFile, key []byte) (offset int64, err error) {
 	if err != nil {
 		return
 	}
+	tr, err := t.reader(ch)
+	if err != nil {
+		return 0, err
+	}
 	defer ch.Release()
-	return ch.Value().(*table.Reader).OffsetOf(key)
+	return tr.OffsetOf(key)
 }
 
 // Creates an iterator from the given table.
@@ -465,7 +488,11 @@ func (t *tOps) newIterator(f *tFile, slice *util.Range, ro *opt.ReadOptions) ite
 	if err != nil {
 		return iterator.NewEmptyIterator(err)
 	}
-	iter := ch.Value().(*table.Reader).NewIterator(slice, ro)
+	tr, err := t.reader(ch)
+	if err != nil {
+		return iterator.NewEmptyIterator(err)
+	}
+	iter := tr.NewIterator(slice, ro)
 	iter.SetReleaser(ch)
 	return iter
 }
